@@ -3,6 +3,7 @@
    monitor on the implementation's observations only. *)
 From Coq Require Import ZArith List Bool.
 From NP Require Export Model.Seqnum Model.TcpHs.
+From NP Require Model.Tcp Model.TcpEst.
 Import ListNotations.
 Open Scope Z_scope.
 
@@ -16,6 +17,7 @@ Inductive case :=
           (steps : list astep) (final : afinal)
 | CPassive (syn : hseg) (stackSack : bool) (rcvBuf mtuMss : Z) (synack : hframe) (accepted : bool)
            (steps : list astep)
+           (est : list Z)   (* TcpEst.est_summary of the accepted connection's first snapshot ([] = none) *)
 | CCookie (syn : hseg) (ts mtuMss : Z) (synack : hframe) (steps : list cstep)
 | CStray (s : hseg) (frames : list hframe)
 | CListen (s : hseg) (frames : list hframe) (accepted : bool)
@@ -24,6 +26,13 @@ Inductive case :=
 | CEstRst (inWindow : bool) (s : hseg) (frames : list hframe) (estAfter : Z).
 
 (* ---------------------------------------------------------------- equality on observations *)
+Fixpoint zl_eqb (a b : list Z) : bool :=
+  match a, b with
+  | [], [] => true
+  | x :: a', y :: b' => (x =? y) && zl_eqb a' b'
+  | _, _ => false
+  end.
+
 Definition so_eqb (a b : synopts) : bool :=
   (so_mss a =? so_mss b) && (so_ws a =? so_ws b) && Bool.eqb (so_ts a) (so_ts b) && Bool.eqb (so_sack a) (so_sack b).
 Definition oso_eqb (a b : option synopts) : bool :=
@@ -117,11 +126,16 @@ Definition corr (c : case) : Z :=
       if negb (hf_eqb (executeSyn h0) syn) then 1
       else let '(r, h, err) := activeCorr 1 h0 steps in
            if negb (r =? 0) then r else finalCorr h err final
-  | CPassive syn sk rb mtuMss synack acc steps =>
+  | CPassive syn sk rb mtuMss synack acc steps est =>
       let h0 := hsPassiveInit (hf_seq synack) (hs_seq syn) (effBuf rb) mtuMss (hs_opts syn) sk in
       if negb (hf_eqb (executeSyn h0) synack) then 1
       else let '(r, a) := passiveCorr 1 h0 steps in
-           if negb (r =? 0) then r else if Bool.eqb a acc then 0 else 94
+           if negb (r =? 0) then r else if negb (Bool.eqb a acc) then 94
+           else if acc && negb (Nat.eqb (length est) 0)
+                   && negb (zl_eqb est (TcpEst.est_summary
+                              (TcpEst.passive_established (hf_seq synack) (hs_seq syn) (hs_wnd syn) (hs_opts syn) sk
+                                                          (effBuf rb) 1048576 (mtuMss + 20))))
+           then 95 else 0
   | CCookie syn ts mtuMss synack steps =>
       let data := encodeMSS (so_mss (hs_opts syn)) in
       let H := cookieH (hf_seq synack) (hs_seq syn) ts data in
@@ -193,7 +207,10 @@ Fixpoint cookieSpec (cookie irs data : Z) (steps : list cstep) : Z :=
       let d := (hs_ack s - 1 - cookie) mod 2^32 in
       let seqok := (hs_seq s - 1) mod 2^32 =? irs in
       let ds := if d <? 2^31 then d else d - 2^32 in
-      let r := if acc then
+      let r := if has (hs_flags s) fRst then
+                 (* a reset creates no connection and is never answered *)
+                 (if acc || negb (hfs_eqb fr []) then 1 else 0)
+               else if acc then
                  if seqok && (d =? 0) then 0
                  else if seqok && (-3 <=? ds) && (ds <=? 3) && (0 <=? data + ds) && (data + ds <? 4) then 2 else 1
                else 0 in
@@ -204,7 +221,7 @@ Definition spec (c : case) : Z :=
   match c with
   | CActive iss _ _ _ _ syn steps final =>
       if negb ((hf_flags syn =? fSyn) && (hf_seq syn =? iss)) then 1 else activeSpec iss steps
-  | CPassive syn _ _ _ synack acc steps =>
+  | CPassive syn _ _ _ synack acc steps _ =>
       if negb ((hf_flags synack =? 18) && (hf_ack synack =? (hs_seq syn + 1) mod 2^32)) then 1
       else passiveSpec (hf_seq synack) steps
   | CCookie syn _ _ synack steps =>
@@ -213,14 +230,17 @@ Definition spec (c : case) : Z :=
   | CStray s frames =>
       if has (hs_flags s) fRst then (if hfs_eqb frames [] then 0 else 1)
       else if resetOK s frames then 0 else 1
-  | CListen s frames acc => if acc then 1 else 0
+  | CListen s frames acc =>
+      if acc then 1
+      else if has (hs_flags s) fRst && negb (hfs_eqb frames []) then 1   (* a reset is never answered *)
+      else 0
   | CEstRst _ s frames _ => if hfs_eqb frames [] then 0 else 1     (* a reset is never answered *)
   end.
 
 Definition tag (c : case) : Z :=
   match c with
   | CActive _ _ _ _ _ _ steps _ => if Nat.ltb 1 (length steps) then 2 else 1
-  | CPassive _ _ _ _ _ acc steps => if acc then 3 else 4
+  | CPassive _ _ _ _ _ acc steps _ => if acc then 3 else 4
   | CCookie _ _ _ _ steps => if existsb (fun x => match x with (_, _, a, _, _) => a end) steps then 5 else 6
   | CStray s _ => if has (hs_flags s) fRst then 0 else 7
   | CListen _ _ _ => 8
